@@ -154,40 +154,61 @@ func (v objectValidator) validateTypeRules(objectNode *schema.ObjectNode, value 
 		if !k.IsShortcut {
 			continue
 		}
-		key := k.Key
-		typ, ok := v.rootSchema.TypesList()[key]
-		if !ok {
-			continue
-		}
-		node := typ.Schema().RootNode()
-		if node.Type().String() != "string" {
-			panic(errors.Format(errors.ErrInvalidKeyType, v.requiredKeysString()))
-		}
-
-		flag := false
-		inside := false
-		i := 0
-
-		node.ConstraintMap().EachSafe(func(_ constraint.Type, v constraint.Constraint) {
-			inside = true
-			if i == 0 {
-				flag = true
-			}
-			flag = flag && checkConstraint(v, value)
-			i++
-		})
-
-		if !inside {
-			if bytes.Equal(node.Value(), value) {
-				flag = true
-			}
-		}
-		if flag {
-			// all rules ok for a node
-			return key, true
+		if v.keyTypeAdmits(k.Key, value, map[string]struct{}{}) {
+			return k.Key, true
 		}
 	}
 	return "", false
+}
+
+// keyTypeAdmits tells whether the string type name admits value as a key. A
+// type which is a shortcut to other types (@K = @L, @K = @L | @M) admits what
+// any of them admits: Check lets such types pass as key types, too.
+func (v objectValidator) keyTypeAdmits(name string, value jbytes.Bytes, seen map[string]struct{}) bool {
+	if _, ok := seen[name]; ok {
+		return false
+	}
+	seen[name] = struct{}{}
+
+	typ, ok := v.rootSchema.TypesList()[name]
+	if !ok {
+		return false
+	}
+	node := typ.Schema().RootNode()
+
+	if mixed, ok := node.(*schema.MixedValueNode); ok {
+		for _, tn := range mixed.GetTypes() {
+			if jbytes.Bytes(tn).IsUserTypeName() && v.keyTypeAdmits(tn, value, seen) {
+				return true
+			}
+		}
+		return false
+	}
+
+	if node.Type().String() != "string" {
+		panic(errors.Format(errors.ErrInvalidKeyType, v.requiredKeysString()))
+	}
+
+	flag := false
+	inside := false
+	i := 0
+
+	node.ConstraintMap().EachSafe(func(_ constraint.Type, v constraint.Constraint) {
+		inside = true
+		if i == 0 {
+			flag = true
+		}
+		flag = flag && checkConstraint(v, value)
+		i++
+	})
+
+	if !inside {
+		if bytes.Equal(node.Value(), value) {
+			flag = true
+		}
+	}
+	// all rules ok for a node
+	return flag
 }
 
 func checkConstraint(constr constraint.Constraint, value jbytes.Bytes) (b bool) {
